@@ -124,6 +124,29 @@ def instances(tier, seed):
                                         "graphs": gs, "now": NOW, "seed": seed,
                                         "tag": f"{sname}/{ck}/{bk}/{dl_kind}/"
                                                f"single={with_single}/d{disc}/{pol}+{ok}"})
+    # (d) the default horizon (plan_ahead = -1: derived from the largest deadline offered
+    # in the invocation) on a scheduler object that has planned a tighter batch before
+    for k in (1, 2):
+        for ck in ("c1", "c2"):
+            for bk in ("none", "run4"):
+                gs = [graph(f"G{i}", ["T"], [], [one], NOW + 9 + 3 * i) for i in range(k)]
+                if blockers[bk]:
+                    gs.append(blockers[bk])
+                warm = {"policy": "TSG",
+                        "opts": dict(enforce_deadlines=True, discretization=1,
+                                     plan_ahead="default"),
+                        "cluster": CL[ck], "graphs": [graph("W", ["T"], [], [one], 3)],
+                        "now": 0, "seed": seed, "tag": "warmup"}
+                for with_warmup in (False, True):
+                    inst = {"policy": "TSG",
+                            "opts": dict(enforce_deadlines=True, discretization=1,
+                                         plan_ahead="default"),
+                            "cluster": CL[ck], "graphs": gs, "now": NOW, "seed": seed,
+                            "tag": f"indep{k}/one/{ck}/{bk}/late/d1/TSG+default-horizon"
+                                   f"{'+second-invocation' if with_warmup else ''}"}
+                    if with_warmup:
+                        inst["warmup"] = warm
+                    out.append(inst)
     # (c) whole-graph chains whose first task is already running with part of its work
     # done, a second worker free: the child may start right after the parent's
     # *remaining* time
@@ -388,6 +411,12 @@ def judge(inst, out, stats):
             offered_holder.append([(t.task_graph, t.name) for t in r])
         return r
 
+    if inst.get("warmup"):
+        # the same scheduler *object* has already planned another, smaller batch (as it
+        # has in every run after the first invocation): nothing it derived there may
+        # leak into this invocation
+        bw = I.build(inst["warmup"])
+        b.scheduler.schedule(bw.now, bw.workload, bw.worker_pools)
     WW.Workload.get_schedulable_tasks = spy
     try:
         pl = b.scheduler.schedule(b.now, b.workload, b.worker_pools)
@@ -450,6 +479,9 @@ def judge(inst, out, stats):
     else:
         disc = inst["opts"].get("discretization", 1)
         pa = inst["opts"].get("plan_ahead", 10)
+        if pa == "default":
+            # the documented default: the largest deadline among the offered tasks
+            pa = max([F["tasks"][k]["deadline"] for k in offered] or [0])
         grid = list(range(F["now"], F["now"] + pa + 1, disc))
         cur = {k: plan.get(k) for k in offered}
         cur = {k: (None if v == "cancel" else v) for k, v in cur.items()}
